@@ -10,10 +10,23 @@ Import ListNotations.
 Open Scope Z_scope.
 
 (* For every password, salts, client secret (any byte string), accepted group (any encoding of p)
-   and every server value B below 2^2048 (any encoding; NOT required to lie in (0, p): the code has
-   no such range check and answers as the formulas say), SRP.Hash returns exactly the (A, M1) of the
+   and every valid server value 0 < B < p (any encoding), SRP.Hash returns exactly the (A, M1) of the
    specification. *)
 Theorem C15_spec :
+  forall H pbkdf2 modexp check_dh,
+    hash_wf H -> exp_is_pow modexp -> check_dh_bounds check_dh ->
+    forall password srpB random salt1 salt2 g P,
+      bytes_ok P -> bytes_ok srpB -> bytes_ok random ->
+      check_dh g (be_dec P) = true -> spec_valid_B (be_dec P) (be_dec srpB) ->
+      srp_hash H pbkdf2 modexp check_dh password srpB random salt1 salt2 g P =
+        Ok (spec_answer H pbkdf2 password salt1 salt2 (be_dec P) g (be_dec srpB) (be_dec random)).
+Proof. exact srp_hash_spec_valid. Qed.
+Print Assumptions C15_spec.
+
+(* What the code does with server values OUTSIDE 0 < B < p (known finding unchecked-srp-B: TDLib and
+   SRP-6a refuse them, SRP.Hash has no range check): for every B below 2^2048, including B = 0,
+   B = p and B > p, it does not refuse and answers by the same formulas (t = (B - k*v) mod p). *)
+Theorem C15_unchecked_B :
   forall H pbkdf2 modexp check_dh,
     hash_wf H -> exp_is_pow modexp -> check_dh_bounds check_dh ->
     forall password srpB random salt1 salt2 g P,
@@ -22,7 +35,7 @@ Theorem C15_spec :
       srp_hash H pbkdf2 modexp check_dh password srpB random salt1 salt2 g P =
         Ok (spec_answer H pbkdf2 password salt1 salt2 (be_dec P) g (be_dec srpB) (be_dec random)).
 Proof. exact srp_hash_spec. Qed.
-Print Assumptions C15_spec.
+Print Assumptions C15_unchecked_B.
 
 (* Invalid groups are refused (by Hash and NewHash); [check_dh] is crypto.CheckDH, whose exact
    acceptance condition is property C13.  Conversely nothing else is refused. *)
@@ -102,15 +115,78 @@ Theorem C15_accept_iff_same_secret :
 Proof. exact verifier_accepts_iff. Qed.
 Print Assumptions C15_accept_iff_same_secret.
 
+(* End to end, code model: the verifier made from the same password (v = g^x mod p) accepts the
+   answer SRP.Hash computes for its B = (k*v + g^b) mod p, in any byte encoding of B. *)
+Theorem C15_verifier_code :
+  forall H pbkdf2 modexp check_dh,
+    hash_wf H -> exp_is_pow modexp -> check_dh_bounds check_dh ->
+    forall password srpB random salt1 salt2 g P b,
+      bytes_ok P -> bytes_ok srpB -> bytes_ok random -> check_dh g (be_dec P) = true -> 0 <= b ->
+      let p := be_dec P in
+      let v := spec_v p g (spec_x H pbkdf2 password salt1 salt2) in
+      be_dec srpB = spec_server_B H p g v b ->
+      exists A M1, srp_hash H pbkdf2 modexp check_dh password srpB random salt1 salt2 g P = Ok (A, M1) /\
+                   spec_server_accepts H p g salt1 salt2 v b A M1.
+Proof. exact code_verifier. Qed.
+Print Assumptions C15_verifier_code.
+
+(* "Only the right password": the answer SRP.Hash computes from ANY password, presented to a verifier
+   holding ANY v (e.g. made from another password), is accepted iff the client secret derived from
+   that password equals the server's secret -- under the two explicit SHA-256 no-collision premises
+   [no_collision] (Proof/Srp.v) for this login attempt.  With v made from the same x the secrets agree
+   (C15_secret_agree); that s_a <> s_b whenever g^x differs is the one computational assumption left,
+   exercised by the harness (bit-flipped, truncated, extended, unrelated passwords, foreign salts). *)
+Theorem C15_code_answer_accept_iff :
+  forall H pbkdf2 modexp check_dh,
+    hash_wf H -> exp_is_pow modexp -> check_dh_bounds check_dh ->
+    forall password srpB random salt1 salt2 g P v b,
+      bytes_ok P -> bytes_ok srpB -> bytes_ok random -> check_dh g (be_dec P) = true ->
+      let p := be_dec P in
+      let a := be_dec random in
+      be_dec srpB = spec_server_B H p g v b ->
+      let B := spec_server_B H p g v b in
+      let g_a := spec_g_a p g a in
+      let u := spec_u H g_a B in
+      let s_a := spec_s_a H p g B a u (spec_x H pbkdf2 password salt1 salt2) in
+      let s_b := spec_s_b p v g_a u b in
+      no_collision H p g salt1 salt2 g_a B s_a s_b ->
+      exists A M1, srp_hash H pbkdf2 modexp check_dh password srpB random salt1 salt2 g P = Ok (A, M1) /\
+                   (spec_server_accepts H p g salt1 salt2 v b A M1 <-> s_a = s_b).
+Proof. exact code_answer_accept_iff. Qed.
+Print Assumptions C15_code_answer_accept_iff.
+
+(* the same on the specification side *)
+Theorem C15_answer_accept_iff :
+  forall H pbkdf2 password salt1 salt2 p g v a b,
+    0 < p <= 2 ^ 2048 ->
+    let B := spec_server_B H p g v b in
+    let g_a := spec_g_a p g a in
+    let u := spec_u H g_a B in
+    let s_a := spec_s_a H p g B a u (spec_x H pbkdf2 password salt1 salt2) in
+    let s_b := spec_s_b p v g_a u b in
+    no_collision H p g salt1 salt2 g_a B s_a s_b ->
+    let '(A, M1) := spec_answer H pbkdf2 password salt1 salt2 p g B a in
+    (spec_server_accepts H p g salt1 salt2 v b A M1 <-> s_a = s_b).
+Proof. exact answer_accept_iff. Qed.
+Print Assumptions C15_answer_accept_iff.
+
+(* non-vacuity of [no_collision]: it holds whenever the two secrets coincide *)
+Example C15_no_collision_satisfiable :
+  forall H p g salt1 salt2 g_a g_b s, no_collision H p g salt1 salt2 g_a g_b s s.
+Proof. intros; split; intros _; reflexivity. Qed.
+
 (* non-vacuity: the hypotheses are satisfiable and an accepted group with byte inputs exists *)
 Example C15_hypotheses_satisfiable :
   exists H modexp check_dh, hash_wf H /\ exp_is_pow modexp /\ check_dh_bounds check_dh /\
-    exists g P srpB, bytes_ok P /\ bytes_ok srpB /\ check_dh g (be_dec P) = true /\ be_dec srpB < 2 ^ 2048.
+    exists g P srpB, bytes_ok P /\ bytes_ok srpB /\ check_dh g (be_dec P) = true /\ be_dec srpB < 2 ^ 2048 /\
+                     spec_valid_B (be_dec P) (be_dec srpB).
 Proof.
   exists nv_H, modexp_sm, nv_check. destruct nv_srp_hyps as [H1 [H2 H3]].
   split; [exact H1|split; [exact H2|split; [exact H3|]]].
   exists 3, (128 :: repeat 0 255), [5].
   split; [apply bytes_okb_spec; vm_compute; reflexivity|].
   split; [apply bytes_okb_spec; vm_compute; reflexivity|].
+  split; [vm_compute; reflexivity|].
+  split; [vm_compute; reflexivity|].
   split; vm_compute; reflexivity.
 Qed.
